@@ -14,14 +14,15 @@ def hist_lines(ctx, res):
     return out
 
 
-def gen_cfg(depth):
+def gen_cfg(depth, seeded=False):
     return """SPECIFICATION Spec
 CONSTANTS
   Depth = %d
   MaxOps = 0
+  Seeded = %s
 INVARIANT Dump
 CHECK_DEADLOCK FALSE
-""" % depth
+""" % (depth, "TRUE" if seeded else "FALSE")
 
 
 def run(ctx):
@@ -31,6 +32,7 @@ def run(ctx):
 CONSTANTS
   Depth = 0
   MaxOps = %d
+  Seeded = FALSE
 INVARIANTS InvOneMinerPerAccount InvConservation InvStakeAccounting InvNonNegative InvStakeFloor
 CHECK_DEADLOCK FALSE
 """ % (4 if quick else 5)
@@ -43,6 +45,16 @@ CHECK_DEADLOCK FALSE
         same_block = [h for h in h2 if not h[1]["nb"]]
         rest = [h for h in h2 if h[1]["nb"]]
         h2 = same_block[:2500] + rest[:1500]
+    # every pair of non-apply transactions (with / without a block boundary) on a registry that
+    # already holds a proposer and a validator of two different accounts
+    g4 = ctx.tlc("MinerRegistryMC", cfg_text=gen_cfg(4, seeded=True), timeout=1200)
+    h4 = hist_lines(ctx, g4)
+    rng.shuffle(h4)
+    if quick:
+        h4 = h4[:2500]
+    if not h4:
+        raise Inconclusive("TLC generated no seeded histories")
+    h2 = h2 + h4
     deep_depth = 6 if quick else 8
     gs = ctx.tlc("MinerRegistryMC", cfg_text=gen_cfg(deep_depth), simulate="num=%d" % (40 if quick else 250),
                  depth=deep_depth + 1, extra=["-seed", str(ctx.seed)], timeout=1200)
